@@ -17,6 +17,14 @@ def plan(tier, ctx):
     for nsym in ([2, 3, 4] if quick else list(range(1, 9)) + [12, 19]):
         qs.append(P.setcodes_query(nsym, core=(nsym == 3), witness=(nsym == 3), timeout=(None if quick else 2400)))
     qs.append(P.dynprefix_query())
+    # (e) trailer consumption: exact end position with data following the trailer (1-2 s each)
+    rils = [0, 3, 8, 31, 32, 35, 40, 61, 64] if quick else list(range(0, 65))
+    avs = [0, 3, 6, 9] if quick else [0, 1, 2, 3, 4, 5, 7, 8, 9, 11]
+    for kind in ("zlib", "gzip"):
+        for ril in rils:
+            for av in avs:
+                core = (kind, ril, av) in (("zlib", 40, 3), ("gzip", 64, 3))
+                qs.append(P.trailer_query(kind, ril, av, core=core, witness=core))
     # (b) fixed-Huffman block decoder unit (measured: n=1 ~115 s, n=2 ~265 s, n=3 ~310 s per cbmc run)
     if quick:
         fixed = [(1, 0), (1, 3), (2, 3)]
